@@ -6,13 +6,14 @@ sub-queries in ares_getaddrinfo.c host_callback, hosts file, lookup order, the q
 are tied by the coordinator's channel simulator (h_sim), which imports `Cares.AddrInfo.addrinfoOfAnswer`."""
 import ipaddress
 
+import vlib
 from runner import Stream
 import gen_legacy as g
 import legacy_common as lc
 
 ID = "C13"
-IMPORTS = ["CaresProps.C13"]
-LEAN_TARGETS = ["CaresProps.C13", "driver_legacy", "driver_text"]
+IMPORTS = ["CaresProps.C13", "CaresProps.C13b"]
+LEAN_TARGETS = ["CaresProps.C13", "CaresProps.C13b", "driver_legacy", "driver_text"]
 THEOREMS = [
     "Cares.C13.addrs_exact",
     "Cares.C13.addrs_multiset",
@@ -33,6 +34,7 @@ THEOREMS = [
     "Cares.C13.ptr_name_injective",
     "Cares.C13.reverse_returns_ptr_targets",
 ]
+THEOREMS = THEOREMS + vlib.discover_theorems("CaresProps/C13b.lean")
 TRUSTED = [
     "Lean 4.33.0 kernel; axioms allowed: propext, Classical.choice, Quot.sound",
     "hand-written Lean models (CaresModel/AddrInfo.lean) of ares_parse_into_addrinfo.c, ares_addrinfo2hostent.c, "
